@@ -568,7 +568,9 @@ class Path:
         return self.lookup_name(node.id, fr)
 
     def ev_JoinedStr(self, node, fr):
-        return Opaque('fstring')
+        from . import derivedseq   # names built by f-strings (C04)
+        r = derivedseq.try_fstring(self, node, fr)
+        return Opaque('fstring') if r is None else r
 
     def ev_Tuple(self, node, fr):
         out = []
